@@ -115,8 +115,15 @@ func (e *Env) BuildPartStore(spec string) (partstore.PartStore, error) {
 		ps, err = e.newFS()
 	case leaf == "sql":
 		ps, err = e.newSQL()
-	case strings.HasPrefix(leaf, "ec") && len(leaf) == 4:
-		d, p := int(leaf[2]-'0'), int(leaf[3]-'0')
+	case leaf == "ecbig" || (strings.HasPrefix(leaf, "ec") && len(leaf) == 4):
+		stripe := 1024
+		d, p := 4, 2
+		if leaf == "ecbig" {
+			// production-like geometry: 4+2 shards, 64 KiB stripe shard size (256 KiB stripes)
+			stripe = 64 * 1024
+		} else {
+			d, p = int(leaf[2]-'0'), int(leaf[3]-'0')
+		}
 		var shards []partstore.PartStore
 		for i := 0; i < d+p; i++ {
 			s, err := e.newFS()
@@ -125,7 +132,7 @@ func (e *Env) BuildPartStore(spec string) (partstore.PartStore, error) {
 			}
 			shards = append(shards, s)
 		}
-		ps, err = erasurecoding.NewWithPartStores(d, p, 1024, shards, erasurecoding.WithHealScanInterval(0))
+		ps, err = erasurecoding.NewWithPartStores(d, p, stripe, shards, erasurecoding.WithHealScanInterval(0))
 		if err == nil && e.WrapLayer != nil {
 			ps = e.WrapLayer(leaf, ps)
 		}
